@@ -33,6 +33,9 @@ def main():
         print("replayer error:\n" + traceback.format_exc())
         return 2
     print(msg)
+    from replay.util import STATS
+    if STATS["evaluations"]:
+        print("STATS " + json.dumps(STATS, default=str))
     return 1 if reproduced else 0
 
 
